@@ -30,7 +30,17 @@ type solver struct {
 }
 
 func newSolver(log io.Writer) *solver {
+	// SYMGO_SOLVER selects the incremental back end: z3 (4.8.12, default), z3-new (5.1.0) or cvc5 (1.0).
+	// The second and third exist for the cross-solver diff of tools/cross_solver.sh: a whole check is
+	// repeated under another solver and paths / obligations / verdicts must be identical.
+	which := os.Getenv("SYMGO_SOLVER")
 	cmd := exec.Command("z3", "-in", "-smt2")
+	switch which {
+	case "z3-new":
+		cmd = exec.Command("z3-new", "-in", "-smt2")
+	case "cvc5":
+		cmd = exec.Command("cvc5", "--incremental", "--produce-models", "--lang", "smt2")
+	}
 	in, _ := cmd.StdinPipe()
 	outp, _ := cmd.StdoutPipe()
 	if err := cmd.Start(); err != nil {
@@ -38,7 +48,12 @@ func newSolver(log io.Writer) *solver {
 	}
 	s := &solver{cmd: cmd, in: in, w: bufio.NewWriterSize(in, 1<<16), out: bufio.NewReaderSize(outp, 1<<16), decl: map[string]bool{}, facts: map[string]int{}, log: log, stack: [][]string{nil}}
 	s.oneshot = os.Getenv("SYMGO_ONESHOT") != ""
-	s.send("(set-option :global-decls true)")
+	if which == "cvc5" {
+		s.send("(set-logic ALL)")
+		s.send("(set-option :global-declarations true)")
+	} else {
+		s.send("(set-option :global-decls true)")
+	}
 	s.send("(set-option :produce-models true)")
 	return s
 }
@@ -167,6 +182,9 @@ func (s *solver) implied(e string) (known, feasible bool) {
 
 func (s *solver) script(extra string) string {
 	var sb strings.Builder
+	if os.Getenv("SYMGO_SOLVER") == "cvc5" {
+		sb.WriteString("(set-logic ALL)\n")
+	}
 	sb.WriteString("(set-option :produce-models true)\n")
 	for _, d := range s.decls {
 		sb.WriteString(d + "\n")
@@ -186,6 +204,9 @@ func (s *solver) runOneShot(extra string) (string, string) {
 	f.Close()
 	defer os.Remove(f.Name())
 	bin := os.Getenv("SYMGO_ONESHOT")
+	if alt := os.Getenv("SYMGO_SOLVER"); alt != "" {
+		bin = alt
+	}
 	args := []string{f.Name()}
 	if bin == "cvc5" {
 		args = []string{"--produce-models", f.Name()}
